@@ -8,20 +8,27 @@ package getoptions
 import "strings"
 
 type c07prog struct {
-	opt    *GetOpt
-	a      *bool
-	c      *int
-	s      *string
-	n      *int
-	e      *string
-	ny     *bool
-	alpha  *bool
-	sierra *string
+	opt     *GetOpt
+	a       *bool
+	c       *int
+	s       *string
+	n       *int
+	e       *string
+	ny      *bool
+	verbose *bool
+	alpha   *bool
+	sierra  *string
 }
+
+// c07late: the mode is set after the commands have been declared (the mode of
+// the root at Parse time is the one that counts)
+var c07late = false
 
 func c07define(mode int) *c07prog {
 	p := &c07prog{opt: New()}
-	setMode(p.opt, mode)
+	if !c07late {
+		setMode(p.opt, mode)
+	}
 	p.a = p.opt.Bool("a", false)
 	p.c = p.opt.Increment("c", 0)
 	p.s = p.opt.String("s", "ds")
@@ -30,11 +37,15 @@ func c07define(mode int) *c07prog {
 	p.ny = p.opt.Bool("ñ", false) // shares its first byte with é
 	p.alpha = p.opt.Bool("alpha", false)
 	p.sierra = p.opt.String("sierra", "dsierra")
+	p.verbose = p.opt.Bool("verbose", false) // 'v' is a unique abbreviation of it
 	p.opt.NewCommand("cmd", "")
+	if c07late {
+		setMode(p.opt, mode)
+	}
 	return p
 }
 
-var c07names = []string{"a", "c", "s", "n", "é", "ñ", "alpha", "sierra"}
+var c07names = []string{"a", "c", "s", "n", "é", "ñ", "alpha", "sierra", "verbose"}
 
 // sameOutcome asserts that two runs ended in the same observable state.
 func sameOutcome(x, y *c07prog, remX, remY []string, errX, errY error) {
@@ -46,6 +57,7 @@ func sameOutcome(x, y *c07prog, remX, remY []string, errX, errY error) {
 	vAssert("same/n", *x.n == *y.n)
 	vAssert("same/e", *x.e == *y.e)
 	vAssert("same/ny", *x.ny == *y.ny)
+	vAssert("same/verbose", *x.verbose == *y.verbose)
 	vAssert("same/alpha", *x.alpha == *y.alpha)
 	vAssert("same/sierra", *x.sierra == *y.sierra)
 	for _, nm := range c07names {
@@ -83,13 +95,15 @@ func VerifC07_Normal() {
 	vReach("compared")
 }
 
-var c07flagLetters = []string{"a", "c"}
+var c07flagLetters = []string{"a", "c", "v"} // v abbreviates --verbose
 
 // Bundling mode: -xyz[=v] with x,y flags and z any declared letter is
 // equivalent to -x -y -z[=v].
 func VerifC07_Bundling() {
-	lx := c07flagLetters[vInt("x", 0, 1)]
-	ly := c07flagLetters[vInt("y", 0, 1)]
+	lx := c07flagLetters[vInt("x", 0, 2)]
+	ly := c07flagLetters[vInt("y", 0, 2)]
+	c07late = vBool("modelate")
+	afterCmd := vBool("aftercmd")
 	lz := c07sdLetters[vInt("z", 0, 5)] // the last letter may be a multibyte one
 	width := vInt("width", 2, 3)
 	tail := ""
@@ -105,9 +119,14 @@ func VerifC07_Bundling() {
 		bundle, split = "-"+lx+ly+lz+tail, []string{"-" + lx, "-" + ly, "-" + lz + tail}
 	}
 	x, y := c07define(1), c07define(1)
+	c07late = false
 	vPhase("run")
-	remX, errX := x.opt.Parse(cat([]string{bundle}, rest))
-	remY, errY := y.opt.Parse(cat(split, rest))
+	var lead []string
+	if afterCmd {
+		lead = []string{"cmd"}
+	}
+	remX, errX := x.opt.Parse(cat(lead, []string{bundle}, rest))
+	remY, errY := y.opt.Parse(cat(lead, split, rest))
 	vObserve("errX", errX)
 	vObserve("remX", remX)
 	sameOutcome(x, y, remX, remY, errX, errY)
@@ -116,6 +135,7 @@ func VerifC07_Bundling() {
 		if tail == "" {
 			vAssert("letters/flags-no-error", errY == nil)
 			vAssert("letters/flag-a", *y.a == (lx == "a" || (width == 3 && ly == "a") || lz == "a"))
+			vAssert("letters/abbreviated-flag", *y.verbose == (lx == "v" || (width == 3 && ly == "v")))
 		}
 	} else if (lz == "s" || lz == "é") && ((tail != "" && tail != "=") || len(rest) > 0) {
 		vAssert("letters/valued-no-error", errY == nil)
@@ -129,6 +149,8 @@ var c07sdLetters = []string{"a", "c", "s", "n", "é", "ñ"}
 // SingleDash mode: -xREST is equivalent to --x=REST and -x to --x.
 func VerifC07_SingleDash() {
 	lx := c07sdLetters[vInt("x", 0, 4)]
+	c07late = vBool("modelate")
+	afterCmd := vBool("aftercmd")
 	withRest := vBool("withrest")
 	rest := c07trailing()
 	var tokX, tokY string
@@ -143,9 +165,18 @@ func VerifC07_SingleDash() {
 		tokX, tokY = "-"+lx, "--"+lx
 	}
 	x, y := c07define(2), c07define(2)
+	c07late = false
 	vPhase("run")
-	remX, errX := x.opt.Parse(cat([]string{tokX}, rest))
-	remY, errY := y.opt.Parse(cat([]string{tokY}, rest))
+	var lead []string
+	if afterCmd {
+		lead = []string{"cmd"}
+	}
+	remX, errX := x.opt.Parse(cat(lead, []string{tokX}, rest))
+	remY, errY := y.opt.Parse(cat(lead, []string{tokY}, rest))
+	if withRest && (lx == "s" || lx == "é") {
+		// absolute: the letter takes the rest as its value in this mode
+		vAssert("singledash/value-taken", errX == nil && x.opt.Called(lx))
+	}
 	vObserve("errX", errX)
 	vObserve("remX", remX)
 	vObserve("s", *x.s)
